@@ -48,6 +48,8 @@ def menu():
     for s in ("S1", "S2", "S3", "S4"):
         m.append({"op": "load", "e": 1, "script": s, "ow": True})
         m.append({"op": "load", "e": 1, "script": s, "ow": False})
+    m.append({"op": "load", "e": 1, "script": "S4", "ow": True, "extra": "constants"})
+    m.append({"op": "load", "e": 1, "script": "S2", "ow": False, "extra": "constants"})
     m.append({"op": "loadfail", "e": 1, "script": "S1", "how": "raise"})
     m.append({"op": "loadfail", "e": 1, "script": "S4", "how": "syntax"})
     m.append({"op": "register", "e": 1, "name": "foo", "arity": 1, "style": "inferred", "fid": "f1", "rows": rows1, "raise": {"call": 0, "row": 0}, "yields": False})
@@ -93,6 +95,22 @@ def suspended_scenarios():
     return scns
 
 
+def lookalike_scenarios():
+    """predicate names that differ from an existing name only by characters Python's identifier
+    normalisation (NFKC) maps onto it: another predicate, or a program the compiler refuses"""
+    scns = []
+    for plain, odd in (("fix", "\ufb01x"), ("foo", "\uff46oo"), ("k2", "k\u00b2"), ("ab", "a\u00adb" if False else "\u1d43b")):
+        scr = {"U1": {plain + "/1": [clause(C(plain, A("old")))]}, "U2": {odd + "/1": [clause(C(odd, A("new")))], "other/0": [clause(A("other"))]}}
+        for first, second in (("U1", "U2"), ("U2", "U1")):
+            for ow in (True, False):
+                steps = [[{"op": "load", "e": 1, "script": first, "ow": True}], [{"op": "load", "e": 1, "script": second, "ow": ow}],
+                         [{"op": "solve", "e": 1, "r": 1, "goal": C(plain, V(0)), "qnv": 1, "k": 0}],
+                         [{"op": "solve", "e": 1, "r": 2, "goal": C(odd, V(0)), "qnv": 1, "k": 0}],
+                         [{"op": "solve", "e": 1, "r": 3, "goal": A("other"), "qnv": 0, "k": 0}]]
+                scns.append({"scripts": scr, "steps": steps, "keys": [], "may_refuse_names": True})
+    return scns
+
+
 def run(tier, seed):
     chk = Check("C08", tier, seed)
     rnd = random.Random(seed)
@@ -106,6 +124,7 @@ def run(tier, seed):
         sub = rnd.sample(m, 7)
         chk.machine_family("histories-d4-shard", [history_scenario([sub, sub, sub, sub])], features=features)
     chk.machine_family("suspended-late-binding", suspended_scenarios(), features=features, opts_list=[{}, {"via_file": True}])
+    chk.machine_family("look-alike-predicate-names", lookalike_scenarios(), features=features)
     chk.exhaustive = True
     need = ["DoCallReserved", "DoCallUnknown", "DoCallNative", "DoCallFacts", "DoCallClause", "DoCut"]
     missing = [e for e in need if not chk.events.get(e)]
